@@ -85,7 +85,52 @@ def t_expr(e: ast.expr) -> list:
     raise Outside(type(e).__name__)
 
 
+SRC_LINES: list[bytes] = []
+
+
+def star_pos(a: ast.arg, stars: int) -> list:
+    """Extent of `*name` / `**name` as written: scan back from the name over blanks to the stars (same line)."""
+    line = SRC_LINES[a.lineno - 1]
+    i = a.col_offset
+    while i > 0 and line[i - 1:i] in (b" ", b"\t"):
+        i -= 1
+    if line[i - stars:i] != b"*" * stars:
+        raise Outside("star parameter written across lines")
+    return ["P", a.lineno, i - stars, a.end_lineno, a.end_col_offset]
+
+
+def t_params(a: ast.arguments) -> list:
+    out = []
+    pos = a.posonlyargs + a.args
+    nd = len(pos) - len(a.defaults)
+    for i, x in enumerate(pos):
+        if x.annotation is not None or x.type_comment:
+            raise Outside("annotated parameter")
+        d = a.defaults[i - nd] if i >= nd else None
+        out.append(["param", P(x), P(x), x.arg, "KPosOnly" if i < len(a.posonlyargs) else "KPos", ["opt", t_expr(d)] if d is not None else ["opt"]])
+    if a.vararg is not None:
+        if a.vararg.annotation is not None:
+            raise Outside("annotated parameter")
+        out.append(["param", P(a.vararg), star_pos(a.vararg, 1), a.vararg.arg, "KStar", ["opt"]])
+    for x, d in zip(a.kwonlyargs, a.kw_defaults):
+        if x.annotation is not None:
+            raise Outside("annotated parameter")
+        out.append(["param", P(x), P(x), x.arg, "KKwOnly", ["opt", t_expr(d)] if d is not None else ["opt"]])
+    if a.kwarg is not None:
+        if a.kwarg.annotation is not None:
+            raise Outside("annotated parameter")
+        out.append(["param", P(a.kwarg), star_pos(a.kwarg, 2), a.kwarg.arg, "KDStar", ["opt"]])
+    for x in out:
+        if not ascii_ok(x[3]):
+            raise Outside("non-ascii name")
+    return out
+
+
 def t_stmt(s: ast.stmt) -> list:
+    if isinstance(s, ast.FunctionDef):
+        if s.decorator_list or s.returns is not None or s.type_comment or getattr(s, "type_params", None):
+            raise Outside("decorated / annotated / generic def")
+        return ["SDef", P(s), s.name, t_params(s.args), t_stmts(s.body)]
     if isinstance(s, ast.Expr):
         return ["SExpr", P(s), t_expr(s.value)]
     if isinstance(s, ast.Assign):
@@ -161,6 +206,17 @@ def m_oblock(b: Any) -> list:
 def m_stmt(s: Any) -> list:
     from mypy import nodes as N
     t = type(s)
+    if t is N.FuncDef:
+        if s.type is not None or s.unanalyzed_type is not None or s.is_coroutine or s.is_decorated or s.type_args:
+            raise Outside("typed / async / decorated FuncDef")
+        args = []
+        for a in s.arguments:
+            if a.type_annotation is not None or a.variable.type is not None:
+                raise Outside("annotated argument")
+            assert s.arg_names[len(args)] == (None if a.pos_only else a.variable.name) and a.kind == s.arg_kinds[len(args)]
+            args.append(["MArg", MP(a), MP(a.variable), a.variable.name, ["kind", a.kind.name],
+                         ["opt", m_expr(a.initializer)] if a.initializer is not None else ["opt"], bool(a.pos_only)])
+        return ["MFuncDef", MP(s), s.name, args, m_block(s.body)]
     if t is N.ExpressionStmt:
         return ["MExprStmt", MP(s), m_expr(s.expr)]
     if t is N.AssignmentStmt:
@@ -240,6 +296,8 @@ def one(src: str, ver: tuple[int, int]) -> dict[str, Any]:
     from mypy.options import Options
     try:
         tree = ast.parse(src)
+        global SRC_LINES
+        SRC_LINES = src.encode("utf-8").split(b"\n")
         if tree.type_ignores:
             raise Outside("type ignores")
         t = t_stmts(tree.body)
